@@ -143,7 +143,12 @@ class DBGen:
             if v == ("pending", tx):
                 self.inits[k] = "committed"
         self.done_tx.append(tx)
-        return self.nsnap
+        ret = self.nsnap
+        if not self.wtx:
+            for i, it in self.iters.items():
+                if it.get("obs") and it["st"] == "open" and it["t"] in w["tables"]:
+                    self.obsread(i)
+        return ret
 
     def abort(self, tx):
         self.wtx.pop(tx)
@@ -280,10 +285,28 @@ class DBGen:
         self.add(op="changes", tx=tx, t=t, it=self.niter)
         return self.niter
 
+    def observe(self, t):
+        """statedb.Observable on t; its batches are read after every commit of t (see commit)."""
+        if self.wtx:
+            return None
+        self.niter += 1
+        self.iters[self.niter] = dict(t=t, st="open", tx=None, lastgen=self.tgen[t], obs=True)
+        self.add(op="observe", it=self.niter, t=t)
+        self.obsread(self.niter)
+        return self.niter
+
+    def obsread(self, it):
+        d = self.iters[it]
+        if d["st"] != "open" or self.wtx:
+            return
+        s = self.snap()
+        d["lastgen"] = self.tgen[d["t"]]
+        self.add(op="obsread", it=it, src=self.snap_src(s))
+
     def next(self, it, src=None, take=None):
         d = self.iters[it]
         t = d["t"]
-        if d["st"] != "open":
+        if d["st"] != "open" or d.get("obs"):
             return
         if src is None:
             cands = []
@@ -311,6 +334,13 @@ class DBGen:
         if d["st"] not in ("open", "dead"):
             return
         if d["t"] not in self.free_tables():
+            return
+        if d.get("obs"):
+            if self.wtx:
+                return
+            d["st"] = "closed"
+            self.tgen[d["t"]] += 1
+            self.add(op="obsstop", it=it)
             return
         d["st"] = "closed"
         self.tgen[d["t"]] += 1
@@ -426,9 +456,11 @@ def gen_iter(rng, mode):
     if rng.random() < 0.7:
         g.changes(tx, t)
     g.commit(tx)
+    if rng.random() < 0.3:
+        g.observe(t)           # a subscriber of statedb.Observable: an iterator driven by the library itself
     for step in range(rng.randint(4, 10)):
         r = rng.random()
-        open_iters = [i for i, d in g.iters.items() if d["st"] == "open"]
+        open_iters = [i for i, d in g.iters.items() if d["st"] == "open" and not d.get("obs")]
         if r < 0.45:
             tabs = [t] if rng.random() < 0.85 or len(g.tables) < 2 else [t, 1]
             tx = g.begin(tabs)
